@@ -1,9 +1,13 @@
 import Proofs.LinkLists
-/-! C03 — link multigraph fidelity. Proved so far, for every state with well-formed link arrays: a list
-    write prepends exactly the submitted ends, newest first, and changes no other list (stubs are
-    immutable); the reported weights are the multiplicities of the walk, each target once. The lift to
-    "weight = number of submissions" over whole histories needs the page ↔ block correspondence
-    (Proofs/Shape*, in progress) — hence `_partial`. -/
+import Proofs.LinkBagC03
+/-! C03 — link multigraph fidelity, in full (Proofs/LinkBag*): for every history of writes from a fresh index the
+    out-list of `p` and the in-list of `q` hold the link `p → q` as many times as it was submitted
+    (`C03_history`, `C03_symmetry`), self-links are stored on both sides and reported once as internal,
+    `count_links`, both enumerations and the degree figures are the corresponding totals (`C03_totals`,
+    `C03_degrees_unweighted`). Histories in which `index_batch_crawl` is aborted by the library's KeyError
+    (a rule flag in the trie with no rule in RAM, i.e. rules not re-supplied on reopen) are excluded: there the
+    out-lists of the rows already processed are written and no in-list is (witness in Proofs/LinkBagC03). The
+    per-list lemmas the proof starts from are kept below. -/
 namespace Traph.Props
 open Traph State
 
@@ -27,5 +31,83 @@ theorem C03_total (s : State) (head : Nat) : ((s.weighted head).map (·.2)).sum 
 
 /-- the global link count is half the number of stubs (two stubs per submitted link) -/
 theorem C03_count (s : State) : s.countLinks2 = s.links.size - 1 := rfl
+
+/-! ### history level (Proofs/LinkBag*): the link multigraph equals the submissions -/
+
+/-- THE PROPERTY, weights: for every history (no `clear`; `NoKeyErr` as in C01) and every ordered pair of distinct pages `(p, q)`, the weight reported on the outbound side of `p` towards `q` and on the inbound side of `q` from `p` are both the number of times `p → q` was submitted (reported iff positive); a self-link is reported once, as internal, with its submission count, and never when internal links are switched off; no answer repeats a triple -/
+theorem C03_history (cfg : Config) (dflt : Rule) (rules : List (Bytes × Rule)) (ops : List Op)
+    (hrules : ∀ ar ∈ rules, lruIter ar.1 ≠ [])
+    (hop : ∀ op ∈ ops, ∀ d rs, op ≠ .clear d rs) (hwf : ∀ op ∈ ops, OpWf op)
+    (hok : NoKeyErr (State.fresh cfg dflt rules []).1 ops) :
+    (∀ p q, Submitted ops p → Submitted ops q → q ≠ p → ∀ n,
+      ((p.flatten, q.flatten, n) ∈ ((State.fresh cfg dflt rules []).1.run ops).pageLinks p.flatten false false true ↔
+        (0 < n ∧ n = nsub (ops.flatMap Op.links) p q)) ∧
+      ((p.flatten, q.flatten, n) ∈ ((State.fresh cfg dflt rules []).1.run ops).pageLinks q.flatten true false false ↔
+        (0 < n ∧ n = nsub (ops.flatMap Op.links) p q))) ∧
+    (∀ p, Submitted ops p → ∀ incIn incOut n,
+      ((p.flatten, p.flatten, n) ∈ ((State.fresh cfg dflt rules []).1.run ops).pageLinks p.flatten incIn true incOut ↔
+        (0 < n ∧ n = nsub (ops.flatMap Op.links) p p)) ∧
+      (p.flatten, p.flatten, n) ∉ ((State.fresh cfg dflt rules []).1.run ops).pageLinks p.flatten incIn false incOut) ∧
+    (∀ p, Submitted ops p → ∀ incIn incInt incOut,
+      (((State.fresh cfg dflt rules []).1.run ops).pageLinks p.flatten incIn incInt incOut).Nodup) :=
+  Traph.C03_history cfg dflt rules ops hrules hop hwf hok
+
+/-- `count_links` counts stubs, two per submission; the two enumerations are transposes of each other and list exactly the submitted pairs; the weighted degree figures are the corresponding sums -/
+theorem C03_totals (cfg : Config) (dflt : Rule) (rules : List (Bytes × Rule)) (ops : List Op)
+    (hrules : ∀ ar ∈ rules, lruIter ar.1 ≠ [])
+    (hop : ∀ op ∈ ops, ∀ d rs, op ≠ .clear d rs) (hwf : ∀ op ∈ ops, OpWf op)
+    (hok : NoKeyErr (State.fresh cfg dflt rules []).1 ops) :
+    ((State.fresh cfg dflt rules []).1.run ops).countLinks2 = 2 * (ops.flatMap Op.links).length ∧
+    (∀ x y, (x, y) ∈ ((State.fresh cfg dflt rules []).1.run ops).linksIter true ↔
+      (y, x) ∈ ((State.fresh cfg dflt rules []).1.run ops).linksIter false) ∧
+    (∀ x y, (x, y) ∈ ((State.fresh cfg dflt rules []).1.run ops).linksIter true ↔
+      ∃ st ∈ ops.flatMap Op.links, x = (lruIter st.1).flatten ∧ y = (lruIter st.2).flatten) ∧
+    (∀ p, Submitted ops p →
+      ((State.fresh cfg dflt rules []).1.run ops).pageDegree p.flatten .outdeg true =
+        ((ops.flatMap Op.links).filter (fun st => decide (lruIter st.1 = p ∧ lruIter st.2 ≠ p))).length ∧
+      ((State.fresh cfg dflt rules []).1.run ops).pageDegree p.flatten .indeg true =
+        ((ops.flatMap Op.links).filter (fun st => decide (lruIter st.2 = p ∧ lruIter st.1 ≠ p))).length ∧
+      ((State.fresh cfg dflt rules []).1.run ops).pageDegree p.flatten .deg true =
+        ((ops.flatMap Op.links).filter (fun st => decide (lruIter st.1 = p))).length +
+        ((ops.flatMap Op.links).filter (fun st => decide (lruIter st.2 = p ∧ lruIter st.1 ≠ p))).length) :=
+  Traph.C03_totals cfg dflt rules ops hrules hop hwf hok
+
+/-- block level: the stub store is well-formed (acyclic, every pointer inside the file) and the out and in lists are symmetric as multisets, in every reachable state -/
+theorem C03_symmetry (cfg : Config) (dflt : Rule) (rules : List (Bytes × Rule)) (ops : List Op)
+    (hrules : ∀ ar ∈ rules, lruIter ar.1 ≠ [])
+    (hop : ∀ op ∈ ops, ∀ d rs, op ≠ .clear d rs) (hwf : ∀ op ∈ ops, OpWf op)
+    (hok : NoKeyErr (State.fresh cfg dflt rules []).1 ops) (a b : Nat) :
+    LinksOk ((State.fresh cfg dflt rules []).1.run ops) ∧
+    count b (((State.fresh cfg dflt rules []).1.run ops).outBag a) =
+      count a (((State.fresh cfg dflt rules []).1.run ops).inBag b) :=
+  Traph.C03_symmetry cfg dflt rules ops hrules hop hwf hok a b
+
+/-- the complete answer of `get_page_links` for a page of the history, any switches -/
+theorem C03_pageLinks (cfg : Config) (dflt : Rule) (rules : List (Bytes × Rule)) (ops : List Op)
+    (hrules : ∀ ar ∈ rules, lruIter ar.1 ≠ [])
+    (hop : ∀ op ∈ ops, ∀ d rs, op ≠ .clear d rs) (hwf : ∀ op ∈ ops, OpWf op)
+    (hok : NoKeyErr (State.fresh cfg dflt rules []).1 ops)
+    (p : LRU) (hp : Submitted ops p) (incIn incInt incOut : Bool) (x : PageLink) :
+    x ∈ ((State.fresh cfg dflt rules []).1.run ops).pageLinks p.flatten incIn incInt incOut ↔
+      (∃ q, 0 < nsub (ops.flatMap Op.links) p q ∧ ((incOut = true ∧ q ≠ p) ∨ (incInt = true ∧ q = p)) ∧
+        x = (p.flatten, q.flatten, nsub (ops.flatMap Op.links) p q)) ∨
+      (incIn = true ∧ ∃ q, 0 < nsub (ops.flatMap Op.links) q p ∧ q ≠ p ∧
+        x = (q.flatten, p.flatten, nsub (ops.flatMap Op.links) q p)) :=
+  Traph.C03_pageLinks cfg dflt rules ops hrules hop hwf hok p hp incIn incInt incOut x
+
+/-- unweighted degree figures = numbers of distinct pages linked to / from -/
+theorem C03_degrees_unweighted (cfg : Config) (dflt : Rule) (rules : List (Bytes × Rule)) (ops : List Op)
+    (hrules : ∀ ar ∈ rules, lruIter ar.1 ≠ [])
+    (hop : ∀ op ∈ ops, ∀ d rs, op ≠ .clear d rs) (hwf : ∀ op ∈ ops, OpWf op)
+    (hok : NoKeyErr (State.fresh cfg dflt rules []).1 ops) (p : LRU) (hp : Submitted ops p) :
+    ∃ outAll outOther inOther : List LRU, outAll.Nodup ∧ outOther.Nodup ∧ inOther.Nodup ∧
+      (∀ q, q ∈ outAll ↔ 0 < nsub (ops.flatMap Op.links) p q) ∧
+      (∀ q, q ∈ outOther ↔ (0 < nsub (ops.flatMap Op.links) p q ∧ q ≠ p)) ∧
+      (∀ q, q ∈ inOther ↔ (0 < nsub (ops.flatMap Op.links) q p ∧ q ≠ p)) ∧
+      ((State.fresh cfg dflt rules []).1.run ops).pageDegree p.flatten .outdeg false = outOther.length ∧
+      ((State.fresh cfg dflt rules []).1.run ops).pageDegree p.flatten .indeg false = inOther.length ∧
+      ((State.fresh cfg dflt rules []).1.run ops).pageDegree p.flatten .deg false =
+        outAll.length + inOther.length :=
+  Traph.C03_degrees_unweighted cfg dflt rules ops hrules hop hwf hok p hp
 
 end Traph.Props
